@@ -82,8 +82,12 @@ On(ds, bs) == INSTANCE BIP9 WITH deps <- ds, blocks <- bs
 
 DepSpace ==
     {r \in [start : Starts, timeout : Timeouts, thr : Thrs, minh : MinHs, always : Alwayss] :
-        \* a deployment cannot time out before it starts (all real ones obey
-        \* this; see the README note on the not-started short cut)
+        \* A deployment cannot time out before it starts.  All real ones obey
+        \* this.  For the others thresholdState's short cut "a window whose
+        \* last block has not reached the start time is Defined" (which
+        \* Bitcoin Core has as well) reports Defined where the plain state
+        \* machine reports Failed, until the start time is reached; the check
+        \* records this as an assumption instead of modelling it.
         r.timeout = 0 \/ r.start <= r.timeout}
 
 -------------------------------------------------------------------------------
